@@ -347,7 +347,7 @@ pub fn run(args: &Args) {
                 labels.push("accepted".into());
                 let l: Vec<&str> = labels.iter().map(|s| s.as_str()).collect();
                 report.case(if st.kinds.len() >= 4 { Some(c.text.as_str()) } else { None }, &l);
-                report.sample(if st.kinds.len() >= 6 { "rich" } else { "plain" }, 2, || to_json(c));
+                crate::sample(&report, if st.kinds.len() >= 6 { "rich" } else { "plain" }, 2, || to_json(c));
             } else {
                 report.case(None::<&str>, &["rejected-by-parser"]);
             }
